@@ -318,7 +318,9 @@ func (f *Face) GlyphVOrigin(glyph GID) (x, y int32, found bool) {
 	}
 
 	if extents, ok := f.getExtentsFromGlyf(gID(glyph)); ok {
-		if f.HasVerticalMetrics() {
+		// for a variable glyf font the top side bearing is derived from the
+		// phantom points when vmtx is missing
+		if f.HasVerticalMetrics() || f.isVar() {
 			tsb := f.getVerticalSideBearing(gID(glyph))
 			y = int32(extents.YBearing) + int32(tsb)
 			return x, y, true
